@@ -12,9 +12,9 @@ from .coordinates_c07 import M, _extra_values, _n_extra, _region_of, _scale
 import numpy as np
 
 
-def _coords(B, rank, n_extra=0, names=("easting", "northing"), minsize=1):
+def _coords(B, rank, n_extra=0, names=("easting", "northing"), minsize=1, kind="f"):
     dims = tuple(B.dim("n%d" % k, minsize) for k in range(rank))
-    out = [B.array(names[0], dims), B.array(names[1], dims)]
+    out = [B.array(names[0], dims, kind), B.array(names[1], dims, kind)]
     for k in range(n_extra):
         out.append(B.array("extra%d" % k, dims))
     return tuple(out)
